@@ -2,7 +2,9 @@ package c20
 
 import (
 	"go/ast"
+	"go/token"
 	"go/types"
+	"sort"
 	"strings"
 
 	"golang.org/x/tools/go/cfg"
@@ -16,7 +18,9 @@ import (
 // ---------------------------------------------------------------------------
 // R3: bounded retry
 
-func retry(c *core.Ctx, fn, get *core.Fn) {
+// retry returns the position of the `for` statement that implements the retry when the
+// tail recursion is written as a counting loop (token.NoPos otherwise).
+func retry(c *core.Ctx, fn, get *core.Fn) (retryLoop token.Pos) {
 	info := fn.Pkg.TypesInfo
 	view := tt.ViewOf(c.Program, fn, "c20retry", func(f *types.Func) bool { return f == fn.Obj })
 	body := view.Body
@@ -28,11 +32,33 @@ func retry(c *core.Ctx, fn, get *core.Fn) {
 		return
 	}
 	depth := info.Defs[fn.Decl.Type.Params.List[0].Names[0]]
+	param := depth
 	isDepth := func(e ast.Expr) bool { return identObj(info, e) == depth }
 	recs := g.Points(g.HasCall(func(_ *ast.CallExpr, callee types.Object) bool { return callee == types.Object(fn.Obj) }))
+	// the tail recursion written as a loop: `for left := depth; ; left-- { attempt; if left == 0 { return error }; sleep }`.
+	// The counter plays the role of the depth, the step to the next iteration the role of the recursive call.
+	var step ast.Node
 	if len(recs) == 0 {
-		c.Undecidedf("R3.retry", name+"/recursion", fn.Decl.Pos(), "no recursive retry found")
-		return
+		lp := retryAsLoop(c, info, body, param, name)
+		if lp == nil {
+			c.Undecidedf("R3.retry", name+"/recursion", fn.Decl.Pos(), "no recursive retry found")
+			return
+		}
+		if lp.undecided != "" {
+			c.Undecidedf("R3.retry", name+"/decrements", lp.loop.Pos(), "%s", lp.undecided)
+			return lp.loop.Pos()
+		}
+		retryLoop = lp.loop.Pos()
+		depth = lp.counter
+		if lp.never != "" {
+			c.Failf("R3.retry", name+"/decrements", lp.loop.Pos(), "%s: the counter never reaches 0: with no node reporting role:master the tool retries forever (hangs) instead of failing with an error", lp.never)
+		} else {
+			c.Okf("R3.retry", name+"/decrements", lp.step.Pos(), "each retry decrements the counter by one")
+			step = lp.step
+			if pt, ok := tt.Find(g, step); ok {
+				recs = append(recs, pt)
+			}
+		}
 	}
 	// facts about the depth
 	depthFact := func(f cfgq.Fact) (zero bool, ok bool) {
@@ -47,20 +73,49 @@ func retry(c *core.Ctx, fn, get *core.Fn) {
 		return false, false
 	}
 	for _, rp := range recs {
-		var call *ast.CallExpr
+		var call ast.Node
 		for _, cl := range cfgq.ExecCalls(rp.Node()) {
 			if core.CalleeFunc(info, cl) == fn.Obj {
 				call = cl
 			}
 		}
-		arg := ast.Unparen(call.Args[0])
+		arg := ast.Expr(nil)
+		if cl, ok := call.(*ast.CallExpr); ok {
+			arg = ast.Unparen(cl.Args[0])
+		} else {
+			call = step
+		}
 		switch {
+		case arg == nil: // loop form: decided above
 		case func() bool {
 			b := pat.Expr("_d - 1").Match(info, arg, nil)
 			return b != nil && isDepth(b["_d"].(ast.Expr))
 		}():
 			c.Okf("R3.retry", name+"/decrements", call.Pos(), "each retry passes depth-1")
-		case isDepth(arg), pat.Expr("_d + _k").Match(info, arg, nil) != nil && core.Mentions(info, arg, depth):
+		case func() bool { // depth + (-1), -1 + depth
+			for _, ps := range []string{"_d + _k", "_k + _d"} {
+				if b := pat.Expr(ps).Match(info, arg, nil); b != nil && isDepth(b["_d"].(ast.Expr)) {
+					if k, isConst := core.IntConst(info, b["_k"].(ast.Expr)); isConst && k == -1 {
+						return true
+					}
+				}
+			}
+			return false
+		}():
+			c.Okf("R3.retry", name+"/decrements", call.Pos(), "each retry passes depth-1")
+		case isDepth(arg), func() bool { // depth + k / depth - k that does not decrease
+			for _, t := range []struct {
+				p    string
+				sign int64
+			}{{"_d + _k", 1}, {"_k + _d", 1}, {"_d - _k", -1}} {
+				if b := pat.Expr(t.p).Match(info, arg, nil); b != nil && isDepth(b["_d"].(ast.Expr)) {
+					if k, isConst := core.IntConst(info, b["_k"].(ast.Expr)); isConst && t.sign*k >= 0 {
+						return true
+					}
+				}
+			}
+			return false
+		}():
 			c.Failf("R3.retry", name+"/decrements", call.Pos(), "the retry passes `%s`, the depth never reaches 0: with no node reporting role:master the tool retries forever (hangs) instead of failing with an error", c.Src(arg))
 		default:
 			c.Undecidedf("R3.retry", name+"/decrements", call.Pos(), "retry argument `%s` not recognised", c.Src(arg))
@@ -147,6 +202,200 @@ func retry(c *core.Ctx, fn, get *core.Fn) {
 			c.Check("R3.retry", "GetSlotState/max-retries", get.Decl.Pos(), okConst, "maxRetries must be a non-negative constant: a negative depth never meets the depth == 0 exit and the tool retries forever")
 		}
 	}
+	return retryLoop
+}
+
+type loopRetry struct {
+	loop      *ast.ForStmt
+	counter   types.Object
+	step      ast.Node // the decrement
+	never     string   // why the counter never decreases
+	undecided string
+}
+
+// retryAsLoop finds the `for` loop without condition (not nested in another loop) whose
+// counter starts as the depth parameter.
+func retryAsLoop(c *core.Ctx, info *types.Info, body *ast.BlockStmt, depth types.Object, name string) *loopRetry {
+	var loops []*ast.ForStmt
+	var visit func(n ast.Node)
+	visit = func(n ast.Node) {
+		ast.Inspect(n, func(m ast.Node) bool {
+			switch v := m.(type) {
+			case *ast.FuncLit:
+				return false
+			case *ast.ForStmt:
+				loops = append(loops, v)
+				return false
+			case *ast.RangeStmt:
+				return false
+			}
+			return true
+		})
+	}
+	visit(body)
+	if len(loops) != 1 {
+		return nil
+	}
+	lp := &loopRetry{loop: loops[0]}
+	fs := lp.loop
+	// depth-derived variables: the parameter itself or a variable initialised with it
+	derived := func(o types.Object) bool {
+		if o == nil {
+			return false
+		}
+		if o == depth {
+			return true
+		}
+		n := 0
+		ok := false
+		for _, d := range tt.DefsOf(info, body, o) {
+			if isStep(info, d.Stmt, o) != 0 {
+				continue
+			}
+			n++
+			ok = d.Rhs != nil && d.Index == -1 && d.Range == nil && identObj(info, d.Rhs) == depth
+		}
+		return n == 1 && ok
+	}
+	// the variables the loop tests against 0
+	cands := map[types.Object]bool{}
+	ast.Inspect(fs, func(n ast.Node) bool {
+		if be, ok := n.(*ast.BinaryExpr); ok {
+			for _, pair := range [][2]ast.Expr{{be.X, be.Y}, {be.Y, be.X}} {
+				if v, isInt := core.IntConst(info, pair[1]); isInt && (v == 0 || v == 1) {
+					if o := identObj(info, pair[0]); derived(o) {
+						cands[o] = true
+					}
+				}
+			}
+		}
+		return true
+	})
+	if init, ok := fs.Init.(*ast.AssignStmt); ok && len(init.Lhs) == 1 && len(init.Rhs) == 1 && identObj(info, init.Rhs[0]) == depth {
+		cands[identObj(info, init.Lhs[0])] = true
+	}
+	delete(cands, nil)
+	if len(cands) != 1 {
+		return nil
+	}
+	for o := range cands {
+		lp.counter = o
+	}
+	if fs.Cond != nil {
+		if bv, isConst := tt.BoolConst(info, fs.Cond); !isConst || !bv {
+			lp.undecided = "the retry is a loop with the condition `" + c.Src(fs.Cond) + "`: that form of the bound is not analysed"
+			return lp
+		}
+	}
+	// modifications of the counter inside the loop
+	var steps []ast.Node
+	var kinds []int
+	other := false
+	ast.Inspect(fs, func(n ast.Node) bool {
+		if n == ast.Node(fs.Init) {
+			return false
+		}
+		switch st := n.(type) {
+		case *ast.IncDecStmt, *ast.AssignStmt:
+			if k := isStep(info, st, lp.counter); k != 0 {
+				steps = append(steps, st)
+				kinds = append(kinds, k)
+			} else if as, ok := st.(*ast.AssignStmt); ok {
+				for _, l := range as.Lhs {
+					if identObj(info, l) == lp.counter {
+						other = true
+					}
+				}
+			}
+		case *ast.UnaryExpr:
+			if st.Op == token.AND && identObj(info, st.X) == lp.counter {
+				other = true
+			}
+		}
+		return true
+	})
+	switch {
+	case other || len(steps) > 1:
+		lp.undecided = "the retry counter is modified in a way that is not analysed"
+	case len(steps) == 0:
+		lp.never = "the retry loop never changes its counter `" + lp.counter.Name() + "`"
+	case kinds[0] > 0:
+		lp.never = "the retry loop increases its counter (`" + c.Src(steps[0]) + "`)"
+	default:
+		lp.step = steps[0]
+		// the decrement is the loop's post statement, or the last statement of a body without `continue`
+		if lp.step != ast.Node(fs.Post) {
+			last := len(fs.Body.List) > 0 && ast.Node(fs.Body.List[len(fs.Body.List)-1]) == lp.step
+			hasContinue := false
+			var walk func(n ast.Node)
+			walk = func(n ast.Node) {
+				ast.Inspect(n, func(m ast.Node) bool {
+					switch v := m.(type) {
+					case *ast.FuncLit, *ast.ForStmt, *ast.RangeStmt:
+						return m == n
+					case *ast.BranchStmt:
+						if v.Tok == token.CONTINUE || v.Tok == token.GOTO {
+							hasContinue = true
+						}
+					}
+					return true
+				})
+			}
+			walk(fs.Body)
+			// a labelled continue inside an inner loop would also skip the decrement
+			ast.Inspect(fs.Body, func(m ast.Node) bool {
+				if b, ok := m.(*ast.BranchStmt); ok && b.Label != nil && b.Tok == token.CONTINUE {
+					hasContinue = true
+				}
+				return true
+			})
+			if !last || hasContinue {
+				lp.undecided = "the retry counter is not decremented in the loop's post statement"
+			}
+		}
+	}
+	return lp
+}
+
+// isStep: st changes the variable o by a constant: -1 for `o--`, `o -= 1`, `o = o - 1`, +1 for an
+// increase by a positive constant, 0 when st is not such a statement.
+func isStep(info *types.Info, st ast.Node, o types.Object) int {
+	switch v := st.(type) {
+	case *ast.IncDecStmt:
+		if identObj(info, v.X) != o {
+			return 0
+		}
+		if v.Tok == token.DEC {
+			return -1
+		}
+		return 1
+	case *ast.AssignStmt:
+		if len(v.Lhs) != 1 || len(v.Rhs) != 1 || identObj(info, v.Lhs[0]) != o {
+			return 0
+		}
+		one := func(e ast.Expr) bool { k, ok := core.IntConst(info, e); return ok && k == 1 }
+		pos := func(e ast.Expr) bool { k, ok := core.IntConst(info, e); return ok && k > 0 }
+		switch v.Tok {
+		case token.SUB_ASSIGN:
+			if one(v.Rhs[0]) {
+				return -1
+			}
+		case token.ADD_ASSIGN:
+			if pos(v.Rhs[0]) {
+				return 1
+			}
+		case token.ASSIGN:
+			if be, ok := ast.Unparen(v.Rhs[0]).(*ast.BinaryExpr); ok && identObj(info, be.X) == o {
+				if be.Op == token.SUB && one(be.Y) {
+					return -1
+				}
+				if be.Op == token.ADD && pos(be.Y) {
+					return 1
+				}
+			}
+		}
+	}
+	return 0
 }
 
 // ---------------------------------------------------------------------------
@@ -218,6 +467,60 @@ func useAtStart(c *core.Ctx, fn *core.Fn) {
 	noErr := func(f cfgq.Fact) bool { is, nonNil := errFact(info, f, serr); return is && !nonNil }
 	isErr := func(f cfgq.Fact) bool { is, nonNil := errFact(info, f, serr); return is && nonNil }
 	if len(sets) == 0 {
+		// the discovered node may reach ds.node in another form (through a helper, a dereference, a
+		// copy): only when it is not handed on at all is it provably dropped
+		handed := false
+		copied := map[string]bool{} // ds.node.F = slot.F
+		ast.Inspect(view.Body, func(n ast.Node) bool {
+			switch st := n.(type) {
+			case *ast.AssignStmt:
+				if st != as {
+					for i, r := range st.Rhs {
+						if !core.Mentions(info, r, slot) {
+							continue
+						}
+						if len(st.Lhs) == len(st.Rhs) {
+							if id, ok := st.Lhs[i].(*ast.Ident); ok && id.Name == "_" {
+								continue // discarded
+							}
+						}
+						// a field-wise copy: ds.node.Source = slot.Source
+						if len(st.Lhs) == len(st.Rhs) {
+							ls, lok := ast.Unparen(st.Lhs[i]).(*ast.SelectorExpr)
+							rs, rok := ast.Unparen(r).(*ast.SelectorExpr)
+							if lok && rok && ls.Sel.Name == rs.Sel.Name && identObj(info, rs.X) == slot && core.IsFieldNamed(info, ls.X, "DbSyncer", "node") {
+								copied[ls.Sel.Name] = true
+								continue
+							}
+						}
+						handed = true
+					}
+				}
+			case *ast.CallExpr:
+				for _, a := range st.Args {
+					if core.Mentions(info, a, slot) {
+						if f := core.CalleeFunc(info, st); f == nil || f.Pkg() == nil || !strings.Contains(f.Pkg().Path(), "/libs/log") {
+							handed = true
+						}
+					}
+				}
+			case *ast.ReturnStmt:
+				for _, r := range st.Results {
+					if core.Mentions(info, r, slot) {
+						handed = true
+					}
+				}
+			}
+			return !handed
+		})
+		if !handed && len(copied) > 0 && !(copied["Source"] && copied["Slaves"]) {
+			c.Failf("R5.start", name+"/replaces-node", as.Pos(), "only a part of the discovered topology is stored in ds.node (fields copied: %v): Source and Slaves must both be replaced, otherwise the sync continues with a mixture of the old and the new topology", keysOf(copied))
+			return
+		}
+		if handed || len(copied) > 0 {
+			c.Undecidedf("R5.start", name+"/replaces-node", as.Pos(), "the discovered topology is handed on in a form that is not analysed")
+			return
+		}
 		c.Failf("R5.start", name+"/replaces-node", as.Pos(), "the discovered topology is never stored in ds.node: the sync keeps using the old source, which may have become a replica")
 	}
 	for _, s := range sets {
@@ -246,4 +549,13 @@ func useAtStart(c *core.Ctx, fn *core.Fn) {
 		}
 		c.Check("R5.start", name+"/replaces-node", as.Pos(), w == nil && w2 == nil, "after a discovery every normal path stores the result in ds.node, and a failed discovery never returns normally: otherwise Sync() goes on with the previous source, which may no longer be the master", append(w, w2...)...)
 	}
+}
+
+func keysOf(m map[string]bool) []string {
+	var out []string
+	for k := range m {
+		out = append(out, k)
+	}
+	sort.Strings(out)
+	return out
 }
